@@ -5,7 +5,8 @@ D  TLC exhaustive on Router.tla (one action per critical section of NetworkServi
    copy at a time in every order the medium allows): every loop-free internetwork of up to four networks with 2-3-port
    routers chosen in Init (MC_Router.tla: all labelled trees or one per shape), 1-2 stations per network that do / do
    not know their network number, cold and warm caches, every (source, kind, destination) incl. a network that does
-   not exist, then every possible reply to a shown source.  Invariants: NoDuplicate, NotToOthers, ExactlyOnce (per
+   not exist (and, on the smaller family, a second message right behind the first), then every possible reply to a
+   shown source; five networks with a four-port router in thorough.  Invariants: NoDuplicate, NotToOthers, ExactlyOnce (per
    destination kind), ReplyRoutable, HopDecrement, NeverBackOnArrivalNet, Terminates.  Internetworks with a cycle
    (triangle, two parallel routers, square) with injected hop counts 0..3: Terminates, HopDecrement.  Each named
    deviation of the model must violate its invariant (vacuity).
@@ -16,7 +17,7 @@ R  TLC dumps the labelled state graph of two small internetworks (line of three 
 T  seeded random TREE internetworks with 2..8 networks, 1..3 stations each, routers of 2..4 ports, random creation
    and bind order; every combination of source and destination kind, each from cold caches (fresh stacks) followed
    by replies from every recipient to the source address it was shown, then all of them again on stacks warmed by
-   the preceding traffic; injected low hop counts; frames delivered in emission order or in seeded random order;
+   the preceding traffic; bursts of 2-3 messages submitted back to back; injected low hop counts; frames delivered in emission order or in seeded random order;
    plus small cyclic internetworks with injected low hop counts (step budget => Terminates violation, never a hang).
    ALL executions are validated strictly by TLC (Trace_Router.tla): every step must be the Router.tla action named by
    the event with exactly the logged frames (decoded by an independent NPCI reader), routing cache, parked packets
@@ -53,7 +54,7 @@ def tla(v):
     raise TypeError(v)
 
 
-def consts(topos="mcTopos", order="lan", maxsteps=400, hops=(255,), modes=("cold", "warm"), replies=True, ghost=True,
+def consts(topos="mcTopos", order="lan", maxsteps=400, hops=(255,), modes=("cold", "warm"), replies=True, ghost=True, burst=False,
            kinds=ALL_KINDS, dev="none", minnets=2, maxnets=3, maxports=3, pats="few", shapes="all", mc=True):
     c = collections.OrderedDict()
     c["Topos"] = "<- " + topos
@@ -63,6 +64,7 @@ def consts(topos="mcTopos", order="lan", maxsteps=400, hops=(255,), modes=("cold
     c["Modes"] = tla(set(modes))
     c["Replies"] = tla(bool(replies))
     c["Ghost"] = tla(bool(ghost))
+    c["Burst"] = tla(bool(burst))
     c["Kinds"] = tla(set(kinds))
     c["Dev"] = tla(dev)
     if mc:
@@ -253,13 +255,16 @@ def run_messages(topo, sends, order, rng, tree=True, cache0=None, replies="all",
         rig.hops = {}
         rig._snap = rig._snapshot()
 
-    for idx, (src, k, dnet, dmac, hops) in enumerate(sends):
-        rig.send(src, k, dnet, dmac, hops)
-        mid = rig.nmsgs
+    for idx, grp in enumerate(sends):
+        grp = grp if isinstance(grp, list) else [grp]          # a list = a burst: submitted back to back
+        mids = []
+        for (src, k, dnet, dmac, hops) in grp:
+            rig.send(src, k, dnet, dmac, hops)
+            mids.append(rig.nmsgs)
         if not rig.run(order, rng, budget):
             livelock = True
             break
-        rcpts = [(s, j + 1) for s in sorted(rig.up) for j, e in enumerate(rig.up[s]) if e["id"] == mid]
+        rcpts = [(s, j + 1) for s in sorted(rig.up) for j, e in enumerate(rig.up[s]) if e["id"] in mids]
         if replies == "one" and rcpts:
             rcpts = [rng.choice(rcpts)]
         elif replies == "none":
@@ -512,6 +517,7 @@ def main(tier, seed):
     run_mc(chk, "trees<=3_allpats_lan", consts(maxnets=3, pats="all", shapes="all"), INVS_TREE)
     run_mc(chk, "trees<=3_few_rcv", consts(maxnets=3, pats="few", shapes="all", order="rcv"), INVS_TREE)
     run_mc(chk, "trees=4_canon_few_lan", consts(minnets=4, maxnets=4, pats="few", shapes="canon"), INVS_TREE)
+    run_mc(chk, "trees<=3_burst", consts(maxnets=3, pats="few" if thorough else "one", shapes="all", burst=True), INVS_TREE)
     run_mc(chk, "trees<=3_lowhops", consts(maxnets=3, pats="one", shapes="all", hops=(0, 1, 2), replies=False), INVS_TREE)
     cyc = "mcCycBig" if thorough else "mcCyc"
     run_mc(chk, "cyclic_warm", consts(topos=cyc, hops=(0, 1, 2, 3), modes=("warm",), replies=False, ghost=False, maxsteps=200), INVS_CYC)
@@ -520,6 +526,7 @@ def main(tier, seed):
     if thorough:
         run_mc(chk, "trees=4_all_few_lan", consts(minnets=4, maxnets=4, pats="few", shapes="all"), INVS_TREE)
         run_mc(chk, "trees=4_canon_allpats_lan", consts(minnets=4, maxnets=4, pats="all", shapes="canon"), INVS_TREE, timeout=1500)
+        run_mc(chk, "trees=5_canon_few_lan_4ports", consts(minnets=5, maxnets=5, maxports=4, pats="few", shapes="canon"), INVS_TREE, timeout=1500)
         run_mc(chk, "trees=4_canon_one_rcv", consts(minnets=4, maxnets=4, pats="one", shapes="canon", order="rcv"), INVS_TREE, timeout=1500)
     # vacuity: each named deviation must violate its invariant; discovery on a cycle does not terminate (no hop count)
     small = dict(maxnets=3, pats="few", shapes="all")
@@ -574,6 +581,21 @@ def main(tier, seed):
         traces += ts
         for (s, k, dnet, dmac) in warm:
             chk.case(("T", tno, "warm", s, k, dnet, dmac), nontrivial=k != "ls")
+        # (ii') bursts: two or three messages submitted back to back (same source: parked behind one discovery; or
+        #       different sources: concurrent discoveries), from cold caches
+        for b in range(12 if thorough else 5):
+            if LIVELOCKS[0] >= MAX_LIVELOCKS:
+                break
+            if b % 2 == 0:
+                s0 = trng.choice(sts)
+                pool = [c for c in allc if c[0] == s0 and c[1] in ("rs", "rb")] or [c for c in allc if c[0] == s0]
+                grp = [trng.choice(pool) for _ in range(trng.randint(2, 3))]
+            else:
+                grp = [trng.choice(allc) for _ in range(trng.randint(2, 3))]
+            sd = trng.randrange(1 << 30)
+            traces += run_messages(topo, [[c + (255,) for c in grp]], "random", random.Random(sd), replies="one",
+                                   meta=dict(meta, cache="cold", rng=sd, burst=len(grp)))
+            chk.case(("T", tno, "burst", tuple(grp)), nontrivial=True)
         # (iii) injected low hop counts
         low = [(s, k, dnet, dmac, h) for (s, k, dnet, dmac) in trng.sample(allc, min(len(allc), 12 if thorough else 6))
                if k in ("gb", "rs", "rb") for h in (0, 1, 2)]
